@@ -26,6 +26,8 @@ Full statement / proved / missing
                       By induction over the op list with the sealing invariant (`step_refines`: a step is the pure step
                       on the represented state and keeps every slice header valid; under a safe table no cell of an
                       existing backing array is ever written — all writes go to arrays allocated by that step).
+* `C08_sealed`      — the sealing invariant as a theorem of its own: extending a history leaves every existing backing
+                      array untouched, cell by cell (`heap' = heap ++ new arrays`).
 * `C08_stable`      — corollary: what value `i` holds at any two later times is the same.
 * `C08_impl`        — `C08_refine` instantiated on the regenerated table.
 * `C08_appendToReceiver_breaks`, `C08_resliceThenAppend_breaks`, `C08_inPlace_breaks` — the constructive converses:
@@ -60,6 +62,14 @@ theorem C08_stable (P : Policy) (tbl : Table) (ht : IdiomsSafe tbl) (ops : List 
       content (runHeap P tbl (ops.take j)) i = content (runHeap P tbl (ops.take j')) i := by
   intro i j j' h1 h2 h3 h4
   rw [C08_refine P tbl ht ops i j h1 h2, C08_refine P tbl ht ops i j' h3 h4]
+
+/-- the sealing invariant, literally: continuing a history never writes a cell of a backing array that exists already
+    (so no cell below — or above — the end of any live slice is ever written): the heap only grows by whole arrays -/
+theorem C08_sealed (P : Policy) (tbl : Table) (ht : IdiomsSafe tbl) (ops more : List Op) :
+    ∃ cs, (runHeap P tbl (ops ++ more)).heap = (runHeap P tbl ops).heap ++ cs := by
+  unfold runHeap
+  rw [List.foldl_append]
+  exact foldl_sealed P tbl ht more _
 
 /-- instantiated on the code as it is now -/
 theorem C08_impl (P : Policy) (ops : List Op) :
